@@ -391,6 +391,8 @@ def judge_merge(case, rec):
         if tot:
             rec.nontrivial()
     both_rank2 = _base_rank(oA) >= 2 and _base_rank(oM) >= 2
+    inexact = bool(q.get("weighted")) and bool(sv["weights"]) and any(
+        float(w * 8) != int(w * 8) for w in sv["weights"])
     # display positions, along the OPPOSING axis, of differences on a categorical-date
     # dimension (same insertions and order in both runs)
     wave_pos = []
@@ -409,6 +411,8 @@ def judge_merge(case, rec):
             continue
         if name in ("zscores", "pvals", "pvalues", "residual_test_stats") and not both_rank2:
             continue
+        if inexact and "scale_median" in name:
+            continue  # a median is stated "for integer counts": exact 50 % ties are rounding
         vA, vM = sA[name], sM[name]
         if isinstance(vA, Raised) or isinstance(vM, Raised):
             if isinstance(vA, Raised) != isinstance(vM, Raised):
@@ -458,7 +462,8 @@ def judge_merge(case, rec):
             # differs ONLY where the subtotal meets a difference on the opposing
             # categorical-date dimension
             sig = "subtotal-x-wave-difference-intersection"
-        if not _vec_close(a, m) and not (is_root(name) and roots_close(a, m)):
+        if not _vec_close(a, m) and not (is_root(name) and roots_close(
+                a, m, 2.0 * (case["population"] or 1) if name.startswith("population") else 1.0)):
             rec.violation(
                 "%s of the subtotal %r differs from the merged category: %r vs %r (axis %d)"
                 % (name, case["adds"], np.asarray(a).tolist(), np.asarray(m).tolist(), which),
